@@ -17,6 +17,9 @@ Proof.
   repeat (destruct Hin as [Hin|Hin]; [lia|]). contradiction.
 Qed.
 
+Lemma inr_inj {A B} (x y : B) : @inr A B x = inr y -> x = y.
+Proof. congruence. Qed.
+
 Section Run.
   Variable growcap : nat -> nat -> nat.
   Variable cr : crypto.
@@ -329,24 +332,24 @@ Section Run.
     destruct (l <=? pcv)%N eqn:E0; [discriminate|].
     unfold inst_data.
     destruct ((OP_1 <=? opc) && (opc <=? OP_16))%N eqn:E1.
-    { intros H; injection H as <-. cbv beta iota delta [i_op i_len i_data]. rewrite E1. apply go_lit_ok. }
+    { intros H; apply inr_inj in H; subst i; cbv beta iota delta [i_op i_len i_data]. rewrite E1. apply go_lit_ok. }
     destruct ((OP_DATA_1 <=? opc) && (opc <=? OP_DATA_75))%N eqn:E2.
     { destruct (add_u32 _ _) as [e|] eqn:Ea; [|discriminate]. apply add_u32_some in Ea.
-      destruct (l <? e)%N eqn:El; [discriminate|]. intros H; injection H as <-. cbv beta iota delta [i_op i_len i_data].
+      destruct (l <? e)%N eqn:El; [discriminate|]. intros H; apply inr_inj in H; subst i; cbv beta iota delta [i_op i_len i_data].
       rewrite E1, E2. apply NA.
       replace (N.to_nat pcv + N.to_nat (1 + (opc - OP_DATA_1 + 1)))%nat with (N.to_nat e) by lia.
       apply slice_window; auto; unfold l in *; lia. }
     destruct (opc =? OP_PUSHDATA1)%N eqn:E3.
     { destruct (pcv =? l - 1)%N; [discriminate|].
       destruct (add_u32 _ _) as [e|] eqn:Ea; [|discriminate]. apply add_u32_some in Ea.
-      destruct (l <? e)%N eqn:El; [discriminate|]. intros H; injection H as <-. cbv beta iota delta [i_op i_len i_data].
+      destruct (l <? e)%N eqn:El; [discriminate|]. intros H; apply inr_inj in H; subst i; cbv beta iota delta [i_op i_len i_data].
       rewrite E1, E2, E3. apply NA.
       replace (N.to_nat pcv + N.to_nat (1 + byte_at v (pcv + 1) + 1))%nat with (N.to_nat e) by lia.
       apply slice_window; auto; unfold l in *; lia. }
     destruct (opc =? OP_PUSHDATA2)%N eqn:E4.
     { destruct ((l <? 3) || (l - 3 <? pcv))%N; [discriminate|].
       destruct (add_u32 _ _) as [e|] eqn:Ea; [|discriminate]. apply add_u32_some in Ea.
-      destruct (l <? e)%N eqn:El; [discriminate|]. intros H; injection H as <-. cbv beta iota delta [i_op i_len i_data].
+      destruct (l <? e)%N eqn:El; [discriminate|]. intros H; apply inr_inj in H; subst i; cbv beta iota delta [i_op i_len i_data].
       rewrite E1, E2, E3, E4. apply NA.
       match goal with |- ritem _ (go_slice _ _ (N.to_nat pcv + N.to_nat ?len)%nat) _ =>
         replace (N.to_nat pcv + N.to_nat len)%nat with (N.to_nat e) by lia end.
@@ -355,17 +358,17 @@ Section Run.
     { destruct ((l <? 5) || (l - 5 <? pcv))%N; [discriminate|].
       destruct (add_u32 5 _) as [len|] eqn:Ea5; [|discriminate]. apply add_u32_some in Ea5.
       destruct (add_u32 pcv len) as [e|] eqn:Ea; [|discriminate]. apply add_u32_some in Ea.
-      destruct (l <? e)%N eqn:El; [discriminate|]. intros H; injection H as <-. cbv beta iota delta [i_op i_len i_data].
+      destruct (l <? e)%N eqn:El; [discriminate|]. intros H; apply inr_inj in H; subst i; cbv beta iota delta [i_op i_len i_data].
       rewrite E1, E2, E3, E4, E5. apply NA.
       replace (N.to_nat pcv + N.to_nat len)%nat with (N.to_nat e) by lia.
       apply slice_window; auto; unfold l in *; lia. }
     destruct ((opc =? OP_JUMP) || (opc =? OP_JUMPIF))%N eqn:E6.
     { destruct (add_u32 _ _) as [e|] eqn:Ea; [|discriminate]. apply add_u32_some in Ea.
-      destruct (l <? e)%N eqn:El; [discriminate|]. intros H; injection H as <-. cbv beta iota delta [i_op i_len i_data].
+      destruct (l <? e)%N eqn:El; [discriminate|]. intros H; apply inr_inj in H; subst i; cbv beta iota delta [i_op i_len i_data].
       rewrite E1, E2, E3, E4, E5, E6. apply NA.
       replace (N.to_nat pcv + N.to_nat 5)%nat with (N.to_nat e) by lia.
       apply slice_window; auto; unfold l in *; lia. }
-    intros H; injection H as <-. cbv beta iota delta [i_op i_len i_data].
+    intros H; apply inr_inj in H; subst i; cbv beta iota delta [i_op i_len i_data].
     rewrite E1, E2, E3, E4, E5, E6. apply NA. apply ritem_dnil.
   Qed.
 
@@ -424,7 +427,111 @@ Section Run.
         split; [reflexivity|]. split; [exact W3|]. split; [eauto using prefix_trans|reflexivity].
   Qed.
 
-  Lemma rsim_child_sim_intro : True.
-  Proof. exact I. Qed.
   End Step.
+
+  Definition mchild (f : nat) : mst -> bool * mst :=
+    fun c => match mrun growcap cr mcx f c with MOk _ cs => (true, cs) | MErr _ cs => (false, cs) end.
+  Definition pchild (f : nat) : vmst -> child_result :=
+    fun c => match run cr cx f c with ROk _ cs => (true, cs) | RErr _ cs => (false, cs) end.
+
+  Lemma mrun_S f ms : mrun growcap cr mcx (S f) ms =
+    if (m_pc ms <? N.of_nat (d_len (m_prog ms)))%N then
+      match mstep growcap cr mcx (mchild f) ms with
+      | MErr e s' => MErr e s'
+      | MOk _ s' => mrun growcap cr mcx f s'
+      end
+    else MOk tt ms.
+  Proof. reflexivity. Qed.
+  Lemma run_S f s : run cr cx (S f) s =
+    if (pc s <? N.of_nat (length (prog s)))%N then
+      match step cr cx (pchild f) s with
+      | RErr e s' => RErr e s'
+      | ROk _ s' => run cr cx f s'
+      end
+    else ROk tt s.
+  Proof. reflexivity. Qed.
+
+  Lemma rsim_trans ms ms' r r' : prefix (m_heap ms) (m_heap ms') -> rsim ms' r r' -> rsim ms r r'.
+  Proof.
+    intros P. unfold rsim. destruct r, r'; auto.
+    - intros (A & B & C). eauto using prefix_trans.
+    - intros (A & B & C & D). eauto 6 using prefix_trans.
+  Qed.
+
+  Lemma sim_run fuel : forall ms, WF ms -> rsim ms (mrun growcap cr mcx fuel ms) (run cr cx fuel (proj ms)).
+  Proof.
+    induction fuel as [|f IH]; intros ms Hwf.
+    - cbn. split; [reflexivity|]. split; [exact Hwf|]. split; [apply prefix_refl|reflexivity].
+    - rewrite mrun_S, run_S.
+      assert (Hrc : child_sim mcx cx (mchild f) (pchild f)).
+      { intros cms Wc. specialize (IH cms Wc). unfold mchild, pchild, rsim in *.
+        destruct (mrun growcap cr mcx f cms), (run cr cx f (proj cms)); cbn [fst snd]; try contradiction.
+        - destruct IH as (X1 & X2 & X3). auto.
+        - destruct IH as (X0 & X1 & X2 & X3). auto. }
+      change (pc (proj ms)) with (m_pc ms). change (prog (proj ms)) with (val (m_heap ms) (m_prog ms)).
+      rewrite val_length by apply Hwf.
+      destruct (m_pc ms <? N.of_nat (d_len (m_prog ms)))%N.
+      + pose proof (sim_step (mchild f) (pchild f) Hrc ms Hwf) as S. unfold rsim in S.
+        destruct (mstep growcap cr mcx (mchild f) ms) as [[] ms'|e ms'],
+                 (step cr cx (pchild f) (proj ms)) as [[] s'|e' s']; try contradiction.
+        * destruct S as (W & P & E). subst s'. eapply rsim_trans; [exact P|]. now apply IH.
+        * exact S.
+      + split; [exact Hwf|]. split; [apply prefix_refl|reflexivity].
+  Qed.
+
+  Lemma sim_push_all_alt h0 l vs : Forall2 (ritem h0) l vs ->
+    MSIM h0 req (mpush_all mpush_alt l) (push_all push_alt vs).
+  Proof.
+    intros H. revert h0 vs H. induction l as [|d l IH]; intros h0 vs H; inversion H; subst; cbn [mpush_all push_all].
+    - apply sim_ret_eq.
+    - eapply msim_bind; [now apply sim_push_alt|]. intros h1 [] [] P _. apply IH. eapply ritems_mono; eauto.
+  Qed.
+  Lemma sim_push_all h0 l vs : Forall2 (ritem h0) l vs ->
+    MSIM h0 req (mpush_all mpush l) (push_all push vs).
+  Proof.
+    intros H. revert h0 vs H. induction l as [|d l IH]; intros h0 vs H; inversion H; subst; cbn [mpush_all push_all].
+    - apply sim_ret_eq.
+    - eapply msim_bind; [now apply sim_push|]. intros h1 [] [] P _. apply IH. eapply ritems_mono; eauto.
+  Qed.
+
+  Lemma wf_minit h gas : wfcx mcx cx h -> WF (minit mcx h gas) /\
+    proj (minit mcx h gas) = {| prog := cx_code cx; pc := 0; nextpc := 0; runlimit := gas; deferred := 0;
+                                expres := match cx_txversion cx with Some 1%N => true | _ => false end;
+                                vdata := []; dstack := []; astack := [] |}.
+  Proof.
+    intros Hc. pose proof Hc as (A & B & _). split.
+    - split; [exact Hc|]. unfold wfH, minit. cbn. split; [exact B|]. split; [apply wfd_dnil|]. split; constructor.
+    - unfold proj, projH, minit. cbn. rewrite val_dnil, <- A. reflexivity.
+  Qed.
+
+  (* Verify on any layout gives the result of the pure VM on the denoted values *)
+  Lemma sim_verify fuel h sd ad gas : wfcx mcx cx h -> Forall (wfd h) sd -> Forall (wfd h) ad ->
+    fst (mverify growcap cr mcx fuel h sd ad gas) = verify cr cx fuel (map (val h) sd) (map (val h) ad) gas
+    /\ WF (snd (mverify growcap cr mcx fuel h sd ad gas))
+    /\ prefix h (m_heap (snd (mverify growcap cr mcx fuel h sd ad gas))).
+  Proof.
+    intros Hc Hs Ha. unfold mverify, verify.
+    destruct (wf_minit h gas Hc) as [W0 P0].
+    assert (Ev : cx_vmversion cx = mc_vmversion mcx) by (rewrite <- (proj1 Hc); reflexivity).
+    rewrite Ev. destruct (negb (mc_vmversion mcx =? 1)%N).
+    { cbn [fst snd]. split; [reflexivity|]. split; [exact W0|apply prefix_refl]. }
+    assert (S : MSIM h req (mpush_all mpush_alt sd;;~ mpush_all mpush ad)
+                          (push_all push_alt (map (val h) sd);;; push_all push (map (val h) ad))).
+    { eapply msim_bind; [apply sim_push_all_alt, ritems_of_wfd, Hs|].
+      intros h1 [] [] P _. apply sim_push_all. eapply ritems_mono; [exact P|]. apply ritems_of_wfd, Ha. }
+    specialize (S (minit mcx h gas) W0 (prefix_refl _)). rewrite P0 in S.
+    destruct ((mpush_all mpush_alt sd;;~ mpush_all mpush ad) (minit mcx h gas)) as [[] ms1|e ms1],
+             ((push_all push_alt (map (val h) sd);;; push_all push (map (val h) ad)) _) as [[] s1|e' s1];
+      try contradiction.
+    - destruct S as (W1 & P1 & E1 & _). subst s1.
+      pose proof (sim_run fuel ms1 W1) as R. unfold rsim in R.
+      destruct (mrun growcap cr mcx fuel ms1) as [[] ms2|e ms2], (run cr cx fuel (proj ms1)) as [[] s2|e' s2];
+        try contradiction.
+      + destruct R as (W2 & P2 & E2). subst s2. cbn [fst snd].
+        split; [reflexivity|]. split; [exact W2|]. eapply prefix_trans; [exact P1|exact P2].
+      + destruct R as (-> & W2 & P2 & E2). subst s2.
+        destruct e'; cbn [fst snd]; (split; [reflexivity|]; split; [exact W2|]; eapply prefix_trans; [exact P1|exact P2]).
+    - destruct S as (-> & W1 & P1 & E1). subst s1. cbn [fst snd].
+      split; [reflexivity|]. split; [exact W1|exact P1].
+  Qed.
 End Run.
